@@ -242,6 +242,8 @@ pub struct ReplayStats {
     pub nontrivial: usize,
     pub kf: BTreeMap<String, usize>,
     pub kf_samples: BTreeMap<String, J>,
+    /// the cases behind the hits of layout-dependent sites (memo_alias): the driver accepts only the witnessed ones
+    pub kf_cases: BTreeMap<String, Vec<String>>,
     pub mismatches: Vec<J>,
     pub n_mismatch: usize,
     pub unsupported: BTreeMap<String, usize>,
@@ -534,6 +536,12 @@ pub fn real_asserts(prop: &str, case: &Case, real: &Obs, all: &dyn Fn(&str, &str
     }
 }
 
+/// what identifies a case for the witness lists of known_findings.txt
+pub fn case_key(case: &Case) -> String {
+    // the colliding pairs are a property of the parser TYPE (its layout), not of the input: the grammar identifies them
+    case.gj.to_string()
+}
+
 pub fn replay_file(path: &str, prop: &str, max_report: usize) -> Result<ReplayStats, String> {
     let f = std::fs::File::open(path).map_err(|e| format!("{path}: {e}"))?;
     let mut groups: BTreeMap<i64, Vec<J>> = BTreeMap::new();
@@ -559,6 +567,7 @@ pub fn replay_file(path: &str, prop: &str, max_report: usize) -> Result<ReplaySt
         nontrivial: 0,
         kf: BTreeMap::new(),
         kf_samples: BTreeMap::new(),
+        kf_cases: BTreeMap::new(),
         mismatches: vec![],
         n_mismatch: 0,
         unsupported: BTreeMap::new(),
@@ -621,6 +630,9 @@ pub fn replay_file(path: &str, prop: &str, max_report: usize) -> Result<ReplaySt
             (Some(kf), None) => {
                 let key = kf.join(",");
                 *st.kf.entry(key.clone()).or_default() += 1;
+                if key.contains("memo_alias") {
+                    st.kf_cases.entry(key.clone()).or_default().push(case_key(&case));
+                }
                 st.kf_samples.entry(key).or_insert_with(|| json!({"case": case.to_json(), "real": rp}));
             }
             (best, assert_fail) => {
@@ -643,6 +655,9 @@ pub fn replay_file(path: &str, prop: &str, max_report: usize) -> Result<ReplaySt
                         kf.sort();
                         let key = kf.join(",");
                         *st.kf.entry(key.clone()).or_default() += 1;
+                        if key.contains("memo_alias") {
+                            st.kf_cases.entry(key.clone()).or_default().push(case_key(&case));
+                        }
                         st.kf_samples.entry(key).or_insert_with(|| json!({"case": case.to_json(), "real": rp, "assertion": assert_fail}));
                         continue;
                     }
